@@ -167,7 +167,9 @@ impl Dw {
                         self.obs = 0;
                     }
                     if let Some(t) = self.last_fresh_ms {
-                        if self.obs >= 2 && self.now - t <= self.cfg.max_interval_ms {
+                        // the first sighting counts as an observed value (the statement asks for two strictly
+                        // increasing values, not for two reports to the detector)
+                        if self.obs >= 1 && self.now - t <= self.cfg.max_interval_ms {
                             self.usable += 1;
                         }
                     }
@@ -191,7 +193,8 @@ impl Dw {
                 if self.record == 0 {
                     return Ok(());
                 }
-                let hb = self.record.saturating_sub(*back).max(1);
+                // down to 0: what a relay advertises that has the member but nothing on record for it
+                let hb = self.record.saturating_sub(*back);
                 let b = syn(&self.x, hb, if *relayed { Some(&self.other) } else { None });
                 for _ in 0..(*times).max(1) {
                     self.deliver(1, &b)?;
@@ -320,7 +323,7 @@ fn gen(seed: u64) -> (DetCfg, Vec<DetCmd>) {
             let off = r.range(0, dt);
             cmds.push(DetCmd::Advance { ms: off });
             if r.chance(0.5) {
-                cmds.push(DetCmd::Stale { back: r.below(4), times: r.range(1, 3) as u8, relayed: r.chance(0.3) });
+                cmds.push(DetCmd::Stale { back: if r.chance(0.15) { 1 << 40 } else { r.below(4) }, times: r.range(1, 3) as u8, relayed: r.chance(0.3) });
             }
             cmds.push(DetCmd::Evaluate);
             cmds.push(DetCmd::Advance { ms: dt - off });
@@ -329,7 +332,7 @@ fn gen(seed: u64) -> (DetCfg, Vec<DetCmd>) {
         }
         cmds.push(DetCmd::Fresh { inc: r.range(1, 4) });
         if r.chance(0.4) {
-            cmds.push(DetCmd::Stale { back: r.below(6), times: 1, relayed: r.chance(0.3) });
+            cmds.push(DetCmd::Stale { back: if r.chance(0.15) { 1 << 40 } else { r.below(6) }, times: 1, relayed: r.chance(0.3) });
         }
     }
     cmds.push(DetCmd::Evaluate);
